@@ -79,6 +79,7 @@ def paths(tier):
     return uniq
 
 
+CH5 = ["".join(t) for t in itertools.product(["a", "é", " ", "%", ";"], repeat=5)]
 INTS = [0, 1, 7, 10, 123, 999, 1000, 2 ** 64]
 FLOATS = [0.0, 1.5, 10.25, 100.125, 123456789.125, 0.001]
 
@@ -99,6 +100,24 @@ def value_sets(tier):
         # defaults twins declared AFTER the general rule (declaration order must not matter)
         "list": [(1, 10), (2, 10), (1, 5), (3, 7)], "k": ["en", "é", "a b"], "n": [1, 2, 10],
         "imm": [3, 5, 9],
+        # same option names, different option values: values valid for exactly one rule of each pair
+        "l2": [v for v in S2 if len(v) == 2][:80], "l5": CH5[:120], "n2": [v for v in S2 if len(v) >= 2][:80] + CH5[:20],
+        "n4": CH5[:80] + ["abcd", "é ;?"], "x2": [v for v in S2 if len(v) <= 2][:80], "x12": CH5[:80] + ["abc", "a" * 12],
+        "b24": ["ab", "abc", "abcd", "é ;?"], "b13": ["a", "ab", "abc", "%2F"],
+        "d3": [0, 7, 12, 999], "d8": [0, 7, 12345678, 99999999], "sd4": [0, -5, 123, -123, 9999],
+        "sd6": [0, -5, 12345, -12345, 999999], "r29": [2, 5, 9], "r99": [10, 50, 99], "fr1": [0.5, 1.0, 1.5],
+        "fr9": [2.0, 5.25, 9.5], "aab": ["a", "b"], "acd": ["c", "d", "x y"], "sg": [0, 5, -5], "us": [0, 5],
+        # several variables of one rule whose URL texts coincide (and do not)
+        "mis": [{"a": 5, "b": "5"}, {"a": 5, "b": "6"}, {"a": 0, "b": "0"}, {"a": 12, "b": "12"}, {"a": 7, "b": "007"}],
+        "msi": [{"a": "5", "b": 5}, {"a": "6", "b": 5}, {"a": "0", "b": 0}],
+        "mfs": [{"a": 2.5, "b": "2.5"}, {"a": 2.5, "b": "2.50"}, {"a": 0.0, "b": "0.0"}],
+        "mus": [{"a": U1, "b": str(U1)}, {"a": U2, "b": str(U1)}, {"a": U2, "b": str(U2).upper()}],
+        "mds": [{"a": 7, "b": "007", "c": 7}, {"a": 7, "b": "7", "c": 7}, {"a": 123, "b": "123", "c": 123}],
+        "mip": [{"a": 5, "b": "5"}, {"a": 5, "b": "5/5"}, {"a": 5, "b": "x/5"}],
+        "mas": [{"a": "5", "b": 5, "c": "5"}, {"a": "x", "b": 5, "c": "x"}],
+        "mgs": [{"a": -5, "b": "-5", "c": -5.0, "d": "-5.0"}, {"a": 2, "b": "2.5", "c": 2.5, "d": "2"}],
+        "smis": [{"a": 5, "b": "5", "c": 5}, {"a": 5, "b": "6", "c": 6}, {"a": 1, "b": "2", "c": 1}],
+        "mvs": [{"sub": "5", "a": 5, "b": "5"}, {"sub": "u1", "a": 5, "b": "u1"}, {"sub": "7", "a": 5, "b": "7"}],
         # values equal to / different from falsy and truthy defaults
         "zl": [0, 1, 2, 10], "z0": [0, 1, 2], "zf": [0.0, 1.0, 2.5, -0.0][:3], "zs": [0, 1, -1, 5],
         "it": [(2, False), (2, True), (0, False), (0, True)], "e0": [(2, ""), (2, "x"), (0, ""), (0, "x")],
@@ -219,6 +238,51 @@ def rules_falsyrev():
     return rules_falsy(True)
 
 
+def _opt_pairs():
+    """for every converter option: rules with the SAME option names and DIFFERENT values in one map"""
+    return [
+        [Rule("/l2/<string(length=2):v>", endpoint="l2"), Rule("/l5/<string(length=5):v>", endpoint="l5")],
+        [Rule("/n2/<string(minlength=2):v>", endpoint="n2"), Rule("/n4/<string(minlength=4):v>", endpoint="n4")],
+        [Rule("/x2/<string(maxlength=2):v>", endpoint="x2"), Rule("/x12/<string(maxlength=12):v>", endpoint="x12")],
+        [Rule("/b24/<string(minlength=2, maxlength=4):v>", endpoint="b24"),
+         Rule("/b13/<string(minlength=1, maxlength=3):v>", endpoint="b13")],
+        [Rule("/d3/<int(fixed_digits=3):v>", endpoint="d3"), Rule("/d8/<int(fixed_digits=8):v>", endpoint="d8")],
+        [Subdomain("sd", [Rule("/sd4/<int(fixed_digits=4, signed=True):v>", endpoint="sd4")]),
+         Subdomain("sd", [Rule("/sd6/<int(fixed_digits=6, signed=True):v>", endpoint="sd6")])],
+        [Rule("/r29/<int(min=2, max=9):v>", endpoint="r29"), Rule("/r99/<int(min=10, max=99):v>", endpoint="r99")],
+        [Rule("/fr1/<float(min=0.5, max=1.5):v>", endpoint="fr1"), Rule("/fr9/<float(min=2.0, max=9.5):v>", endpoint="fr9")],
+        [Rule("/aab/<any(a,b):v>", endpoint="aab"), Rule("/acd/<any(c,d, \"x y\"):v>", endpoint="acd")],
+        [Rule("/sg/<int(signed=True):v>", endpoint="sg"), Rule("/us/<int(signed=False):v>", endpoint="us")],
+    ]
+
+
+def rules_opt(rev=False):
+    out = []
+    for pr in _opt_pairs():
+        out += reversed(pr) if rev else pr
+    return out
+
+
+def rules_optrev():
+    return rules_opt(True)
+
+
+def rules_multi():
+    """several variables in ONE rule, of different Python types, whose URL texts can coincide"""
+    return [
+        Rule("/mis/<int:a>/<string:b>", endpoint="mis"),
+        Rule("/msi/<string:a>/<int:b>", endpoint="msi"),
+        Rule("/mfs/<float:a>/<string:b>", endpoint="mfs"),
+        Rule("/mus/<uuid:a>/<string:b>", endpoint="mus"),
+        Rule("/mds/<int(fixed_digits=3):a>/<string:b>/<int:c>", endpoint="mds"),
+        Rule("/mip/<int:a>/<path:b>", endpoint="mip"),
+        Rule("/mas/<any(\"5\",x):a>-<int:b>/<string:c>", endpoint="mas"),
+        Rule("/mgs/<int(signed=True):a>/<string:b>/<float(signed=True):c>/<string:d>", endpoint="mgs"),
+        Submount("/sub", [Rule("/mis/<int:a>/<string:b>/<int:c>", endpoint="smis")]),
+        Subdomain("<sub>", [Rule("/mv/<int:a>/<string:b>", endpoint="mvs")]),
+    ]
+
+
 def rules_subvar():
     return [Rule("/u/<v>", subdomain="<user>", endpoint="su"), Rule("/", endpoint="root")]
 
@@ -236,6 +300,11 @@ CONFIGS = {
                                     "any", "u", "p", "pb", "pe", "pp", "sm", "sd", "def", "defs",
                                     "m_default", "m_post", "m_put", "w", "wsub", "hi"]),
     "defrev": (rules_defrev, {}, ["list", "k", "n"]),
+    "opt": (rules_opt, {}, ["l2", "l5", "n2", "n4", "x2", "x12", "b24", "b13", "d3", "d8", "sd4", "sd6", "r29", "r99",
+                            "fr1", "fr9", "aab", "acd", "sg", "us"]),
+    "optrev": (rules_optrev, {}, ["l2", "l5", "n2", "n4", "x2", "x12", "b24", "b13", "d3", "d8", "sd4", "sd6", "r29",
+                                  "r99", "fr1", "fr9", "aab", "acd", "sg", "us"]),
+    "multi": (rules_multi, {}, ["mis", "msi", "mfs", "mus", "mds", "mip", "mas", "mgs", "smis", "mvs"]),
     "falsy": (rules_falsy, {}, ["zl", "z0", "zf", "zs", "it", "e0"]),
     "falsyrev": (rules_falsyrev, {}, ["zl", "z0", "zf", "zs", "it", "e0"]),
     "subvar": (rules_subvar, {}, ["su"]),
@@ -254,13 +323,15 @@ EXTRAS = [None, {"q": "a b"}, {"q": ["1", "é"], "r": "&="}]
 EP_REAL = {"m_default": ("m", None), "m_post": ("m", "POST"), "m_put": ("m", "DELETE"), "m.mm": ("m.mm", "POST")}
 WS_EPS = {"w", "wsub", "f.ws", "wst"}
 # the subdomain the rule is declared on (default: the map's default subdomain)
-EP_SUB = {"sd": "sd", "wsub": "sd", "x.k": "sd", "deep.a.b": "sd", "dy": "api", "sv": "u1", "su": "u1"}
+EP_SUB = {"sd4": "sd", "sd6": "sd", "sd": "sd", "wsub": "sd", "x.k": "sd", "deep.a.b": "sd", "dy": "api", "sv": "u1", "su": "u1"}
 EXTRA_UNSORTED = {"z": "1", "b": ["y", "x"]}
 # further argument forms of MapAdapter.build, each run for every value (script x http, not the whole product)
 MODES = ["noappend", "scheme-param", "protocol-relative", "multidict"]
 
 
 def make_values(ep, v):
+    if isinstance(v, dict):
+        return dict(v)
     if ep == "sv":
         return {"v": v, "user": "u1"}
     if ep == "two":
@@ -583,6 +654,7 @@ def round_trip(m, cfg, ep, v, script, fe, scheme, extra, mode=None):
     values = make_values(ep, v)
     real, method = EP_REAL.get(ep, (ep, None))
     is_ws = ep in WS_EPS
+    ep_sub = values["sub"] if "sub" in values else EP_SUB.get(ep, "www" if cfg == "defsub" else "")
     bsub = None if cfg in ("host", "defsub") else ""
     home = "www" if cfg == "defsub" else ""
     ad = m.bind(SERVER, script_name=script, subdomain=bsub, url_scheme=scheme)
@@ -623,8 +695,8 @@ def round_trip(m, cfg, ep, v, script, fe, scheme, extra, mode=None):
             return "websocket-url-not-external", {"url": url}
         ad2 = ad
         crossed = False
-        if cfg != "host" and EP_SUB.get(ep, home) != home:
-            return "wrong-subdomain", {"url": url, "expected": EP_SUB[ep]}
+        if cfg != "host" and ep_sub != home:
+            return "wrong-subdomain", {"url": url, "expected": ep_sub}
     else:
         if cfg == "host":
             ad2 = m.bind(host, script_name=script, url_scheme=rscheme)
@@ -636,8 +708,8 @@ def round_trip(m, cfg, ep, v, script, fe, scheme, extra, mode=None):
                 sub = host[: -len(SERVER) - 1]
             else:
                 return "url-host", {"url": url, "host": host}
-            if sub != EP_SUB.get(ep, home):
-                return "wrong-subdomain", {"url": url, "expected": EP_SUB.get(ep, home)}
+            if sub != ep_sub:
+                return "wrong-subdomain", {"url": url, "expected": ep_sub}
             ad2 = m.bind(SERVER, script_name=script, subdomain=sub, url_scheme=rscheme)
             crossed = sub != home
         if not fe and not crossed and not is_ws:
@@ -673,6 +745,7 @@ def round_trip(m, cfg, ep, v, script, fe, scheme, extra, mode=None):
     return None, {"url": url, "path_info": pi, "crossed": crossed}
 
 
+# (rule text and str(value) concatenated would give the same URL: nothing interesting exercised)
 def plain_url(ep, values, url):
     """Would naive concatenation have produced the same URL? (then nothing interesting was exercised)"""
     return all(str(v) in url for v in values.values())
@@ -746,6 +819,8 @@ def run_unit(unit, R, tier):
 
 
 def enc_value(v):
+    if isinstance(v, dict):
+        return {"dict": {k: enc_value(x) for k, x in v.items()}}
     if isinstance(v, uuid.UUID):
         return {"uuid": str(v)}
     if isinstance(v, float):
@@ -754,6 +829,8 @@ def enc_value(v):
 
 
 def dec_value(v):
+    if isinstance(v, dict) and "dict" in v:
+        return {k: dec_value(x) for k, x in v["dict"].items()}
     if isinstance(v, dict) and "uuid" in v:
         return uuid.UUID(v["uuid"])
     if isinstance(v, dict) and "float" in v:
